@@ -191,3 +191,22 @@ Lemma counters_zero_when_done_proof :
     let st := run true sched (init level progs) in
     all_done st -> ar (sh st) = 0 /\ aw (sh st) = 0.
 Proof. intros. apply ginv_counters_zero; auto. apply reach_inv. Qed.
+
+(* (iii) also while closures of with_*_token run: every thread between accesses of an operation it is not inside
+   of (Idle) or inside a closure that owns its token (WBody) *)
+Definition at_rest (st : state) : Prop := forall th, In th (ths st) -> rest_pc (tpc th) = true.
+Lemma counters_exact_at_rest_proof :
+  forall level b progs sched,
+    let st := run true sched (initb level b progs) in
+    at_rest st ->
+    ar (sh st) = count_kind KR (live st) /\ aw (sh st) = count_kind KW (live st).
+Proof.
+  intros level b progs sched st Q. pose proof (reachb_inv level b progs sched) as G. fold st in G.
+  rewrite (g_ar _ G), (g_aw _ G). unfold live. rewrite !count_kind_app, !count_kind_flat_map.
+  split; f_equal; apply sumf_ext_in; intros th Hth; specialize (Q th Hth);
+    destruct (tpc th) eqn:P; try discriminate Q; first [apply cnt_idle; exact P | apply cnt_wbody; exact P].
+Qed.
+Example at_rest_nontrivial :
+  let st := run true (repeat 0%nat 6) (initb 3 32 [[WithR]]) in
+  map tpc (ths st) = [WBody] /\ ar (sh st) = 1 /\ live st = [Tok KR 2 1].
+Proof. vm_compute. auto. Qed.
